@@ -526,3 +526,16 @@ func vAssignAdmits(op pAst.AssignOperator, k ast.TypeKind) bool {
     ensures @unbound-means-absent !found ==> forall j in 0..len(self.Scopes) :: !haskey(self.Scopes[j].Types, ident)
     loop 1 invariant -1 <= idx && idx < len(self.Scopes) && forall j in idx+1..len(self.Scopes) :: !haskey(self.Scopes[j].Types, ident)
 @*/
+
+// A trigger statement can stand outside every function (in a block of a global
+// initialiser): analysing it must not depend on a current function.
+
+/*@ func (self *Analyzer) triggerStatement
+    serves C05, C03
+    assume-casts
+    assumepre expression, TypeCheck, callArgs, SetSpan, SetSpanAdvanced, WithContext, Type
+    requires self.currentModule != nil
+    assume @registered-functions-exist after callbackFn, callbackFound := self.currentModule.getFunc(node.CallbackFnIdent.Ident()) :: callbackFound ==> callbackFn != nil && callbackFn.FnType != nil
+    assume-unreachable Param type cannot be <nil>
+    assume @current-function-has-a-kind before if self.currentModule.CurrentFunction == nil { :: self.currentModule.CurrentFunction != nil ==> self.currentModule.CurrentFunction.FnType != nil
+@*/
